@@ -45,7 +45,7 @@ deriving DecidableEq, Repr
 
 structure State where
   hasFunc : Bool := false          -- tt->outfunc != NULL
-  hasFd   : Bool := false          -- tt->outfd != -1
+  outfd   : Int := outfd_initial   -- tt->outfd, the descriptor NUMBER; tickit_term_build sets -1 = none
   bufLen  : Nat := 0               -- tt->outbuffer_len; tt->outbuffer != NULL iff bufLen != 0
   buf     : Bytes := []            -- tt->outbuffer[0 .. outbuffer_cur); outbuffer_cur = buf.length
   out     : List Chunk := []       -- every chunk delivered so far, in order (ghost)
@@ -67,12 +67,17 @@ def Outcome.bind (o : Outcome) (f : State → Outcome) : Outcome :=
 
 /-! ### term.c: the output buffer -/
 
-/-- The two-armed tail shared by `tickit_term_flush` and the unbuffered `write_str`:
-    `if(tt->outfunc) (*tt->outfunc)(…) else if(tt->outfd != -1) write(tt->outfd, …)`. -/
-def deliver (st : State) (b : Bytes) : State :=
+/-- The two-armed tail found in `tickit_term_flush` and in the unbuffered `write_str`:
+    `if(tt->outfunc) (*tt->outfunc)(…) else if(<test of tt->outfd>) write(tt->outfd, …)`.
+    The test `guard` is the C condition of that place, translated by the extractor (`flush_fd_guard`,
+    `write_str_fd_guard`: both `tt->outfd != -1` in the unchanged source). -/
+def deliverWith (guard : Int → Bool) (st : State) (b : Bytes) : State :=
   if st.hasFunc then { st with out := st.out ++ [.data .func b] }
-  else if st.hasFd then { st with out := st.out ++ [.data .fd b] }
+  else if guard st.outfd then { st with out := st.out ++ [.data .fd b] }
   else st
+
+/-- The tail of `tickit_term_flush`. -/
+def deliver (st : State) (b : Bytes) : State := deliverWith flush_fd_guard st b
 
 /-- `tickit_term_flush`. -/
 def flush (st : State) : State :=
@@ -106,7 +111,7 @@ def writeStr (st : State) (mem : Bytes) (len : Nat) : Outcome :=
     else
       let str := mem.take len
       if st.bufLen ≠ 0 then writeLoop (2 * len + 2) st str
-      else .ok (deliver st str)
+      else .ok (deliverWith write_str_fd_guard st str)
 
 /-- What a `write_str(tt, str, len)` request means in bytes: the `len == 0 ⇒ strlen` quirk included. -/
 def effective (mem : Bytes) (len : Nat) : Bytes :=
@@ -217,8 +222,11 @@ def startIfUnstarted (st : State) : Outcome :=
   if st.mode.started then .ok st
   else (drvStart st).bind fun st => .ok { st with mode := { st.mode with started := true } }
 
-/-- `tickit_term_set_output_fd` (a pipe: `TIOCGWINSZ` fails, the size is left alone). -/
-def setOutputFd (st : State) : Outcome := startIfUnstarted { st with hasFd := true }
+/-- `tickit_term_set_output_fd(tt, fd)`: `tt->outfd = fd` (a pipe: `TIOCGWINSZ` fails, the size is left alone),
+    then the driver is started if it was not.  `postFd` is the state after the assignment. -/
+def postFd (st : State) (fd : Int) : State := { st with outfd := if set_output_fd_stores then fd else st.outfd }
+
+def setOutputFd (st : State) (fd : Int) : Outcome := startIfUnstarted (postFd st fd)
 
 /-- `tickit_term_set_output_func`: the previous function, if any, is told `(NULL, 0)`. -/
 def setOutputFunc (st : State) : Outcome :=
@@ -285,7 +293,7 @@ inductive Op where
   | resume
   | teardown
   | setbuf (n : Nat)
-  | setFd
+  | setFd (fd : Int)                        -- tickit_term_set_output_fd(tt, fd)
   | setFunc
   | destroy
 deriving DecidableEq, Repr
@@ -309,7 +317,7 @@ def step (st : State) : Op → Outcome
   | .resume => termResume st
   | .teardown => termTeardown st
   | .setbuf n => .ok (setOutputBuffer st n)
-  | .setFd => setOutputFd st
+  | .setFd fd => setOutputFd st fd
   | .setFunc => setOutputFunc st
   | .destroy => termDestroy st
 
@@ -317,12 +325,14 @@ def run (st : State) : List Op → Outcome
   | [] => .ok st
   | o :: os => (step st o).bind fun st => run st os
 
-/-- How the harness builds a terminal (`new <n> <func|fd|both|none> <late|early>`):
+/-- How the harness builds a terminal (`new <n> <func|fd|both|none> <late|early> [<fd> …]`):
     late  = `tickit_term_build` with the output method(s) and `.output_buffersize = n`
             (fd, then function, then — only `if(builder.output_buffersize)` — the buffer);
-    early = built without output, `set_output_buffer(n)`, then fd, then function. -/
-def buildOps (n : Nat) (useFunc useFd early : Bool) : List Op :=
-  let attach := (if useFd then [Op.setFd] else []) ++ (if useFunc then [Op.setFunc] else [])
+    early = built without output, `set_output_buffer(n)`, then fd, then function.
+    `fd` is the descriptor number (`TICKIT_OPEN_FDS` hands `builder.output_fd` to `tickit_term_set_output_fd`
+    only `if(fd_out != -1)`; the harness never passes -1). -/
+def buildOps (n : Nat) (useFunc useFd early : Bool) (fd : Int := 3) : List Op :=
+  let attach := (if useFd then [Op.setFd fd] else []) ++ (if useFunc then [Op.setFunc] else [])
   if early then Op.setbuf n :: attach
   else attach ++ (if n ≠ 0 then [Op.setbuf n] else [])
 
